@@ -4,6 +4,7 @@ import MxModel.Props.C01
 import MxModel.Proofs.ExecKeep
 import MxModel.Proofs.ExecInputsRun
 import MxModel.Proofs.ExecCertExamples
+import MxModel.Proofs.ExecRecalc
 /-!
 # C06 – a value edit discards exactly its dependents; inputs persist
 
@@ -11,8 +12,8 @@ import MxModel.Proofs.ExecCertExamples
 value returned by `n` (edges of the trace graph go from callee to caller).  `St.descsWith` –
 the model of `nx.descendants` – is proved to be exactly this closure (`descs_iff`), so the
 statements below are about *exactly* the dependents.  Regime: the reachable states of C08
-(terminating programs), recalculation option off (the option-on path is checked by the
-implementation-only oracle).
+(terminating programs).  The recalculation option: last section (`St.setValueRecalc`, tied to the code by
+the exec correspondence of C06 run with `recalc on`).
 -/
 namespace MxModel.C06
 open MxModel.Exec MxModel.C08
@@ -315,5 +316,261 @@ example : (lookup (run gEnv {} [.eval (3, []), .eval (0, [.int 7]), .set (0, [.i
     (3, [])) = none ∧
     (lookup (run gEnv {} [.eval (3, []), .eval (0, [.int 7]), .set (0, [.int 1]) (.int 100)]).data
     (0, [.int 7])) = some (.int 17) := by decide
+
+/-! ### the recalculation option (`mx.set_recalc(True)`)
+
+`St.setValueRecalc` (Exec/Mech.lean) is `set_value_from_key` with `System._recalc_dependents = True`:
+`targets = get_startnodes_from(node)` BEFORE the clearing, the assignment as with the option off, then
+`for trg in targets: trg[OBJ].get_value_from_key(trg[KEY])` (`St.recalcTargets`; a failing recomputation
+raises out of the loop, the remaining targets are not evaluated).  Regime of the value statements: `CI`
+states and `C02.WF` (`Ranked`, `NoCatch`, `Scoped`) – every reachable state of the thirteen-operation
+language. -/
+
+/-- **Recalculation = the lazy assignment, then evaluate the former leaf dependents** (the definition of
+the model, made explicit): an accepted assignment is `St.setValue` followed by the loop over
+`St.startNodesFrom` of the state BEFORE the assignment; a refused one (`None` where it is not allowed)
+changes nothing; the loop is one top-level evaluation per target, in order, stopping at the first
+failure. -/
+theorem recalc_is_lazy_then_evaluate (s : St) (n : Node) (v : Val) :
+    (¬ (v = .none ∧ env.allowNone n.1 = false) →
+      s.setValueRecalc env n v =
+        ((St.recalcTargets env (s.startNodesFrom n) (s.setValue env n v).1).2,
+         (St.recalcTargets env (s.startNodesFrom n) (s.setValue env n v).1).1)) ∧
+    ((v = .none ∧ env.allowNone n.1 = false) → s.setValueRecalc env n v = (s, .refused .noneNotAllowed)) ∧
+    (∀ s', St.recalcTargets env [] s' = (.ok, s')) ∧
+    (∀ t ts s', St.recalcTargets env (t :: ts) s' =
+      match (evalTop env t s').1 with
+      | .ok _ => St.recalcTargets env ts (evalTop env t s').2
+      | .formulaError e tb => (.failed t e tb, (evalTop env t s').2)) :=
+  ⟨setValueRecalc_eq s n v, setValueRecalc_refused s n v, fun _ => rfl, fun _ _ _ => rfl⟩
+
+/-- **which elements are recomputed at once**: the former leaf dependents – the elements computed,
+directly or transitively, from `n` (other than `n`) from which nothing else was computed; each of them
+held a value, of a cached cells that exists -/
+theorem recalc_targets_are_former_leaf_dependents {s : St} (h : CI env lt s) (n t : Node) :
+    (t ∈ s.startNodesFrom n ↔
+      GNode.elem n ∈ s.gn ∧ Reach s.ge (.elem n) (.elem t) ∧ t ≠ n ∧ ∀ y, (GNode.elem t, y) ∉ s.ge) ∧
+    (t ∈ s.startNodesFrom n → env.alive t.1 = true ∧ env.cached t.1 = true ∧ (lookup s.data t).isSome = true) :=
+  ⟨mem_startNodesFrom (fun x y hxy => (h.gi.edgeNodes x y hxy).2) n t, startNodes_alive h n t⟩
+
+/-- **Every value held after the recalculating assignment is the value lazy recomputation gives**: the
+state has certificates (`CI`), its inputs – elements and values – are those of the lazy assignment, and
+every held value is the denotation under these inputs (`Good`: `no_stale_after_value_edit` for the
+assignment, `eval_keeps_certificates` for every recomputation – whether it returned or failed). -/
+theorem recalc_values_are_lazy_values (ho : StrictOrder lt) (hw : C02.WF env lt) {s : St} (h : CI env lt s)
+    (n : Node) (v : Val) (hc : env.cached n.1 = true) (hn : env.alive n.1 = true) :
+    CI env lt (s.setValueRecalc env n v).1 ∧
+    inpOf (s.setValueRecalc env n v).1 = inpOf (s.setValue env n v).1 ∧
+    Good env (inpOf (s.setValue env n v).1) (s.setValueRecalc env n v).1 := by
+  have h1 := setValue_ci h n v hc hn
+  by_cases hv : v = .none ∧ env.allowNone n.1 = false
+  · rw [setValueRecalc_refused s n v hv, setValue_refused s n v hv]
+    exact ⟨h, rfl, h.good⟩
+  · rw [setValueRecalc_eq s n v hv]
+    have hal : ∀ t ∈ s.startNodesFrom n, env.alive t.1 = true := fun t ht => (startNodes_alive h n t ht).1
+    have h2 := (recalcTargets_ci ho hw.ranked hw.noCatch (s.startNodesFrom n) _ hal h1).1
+    have h3 := inpOf_recalcTargets ho hw.ranked hw.noCatch (s.startNodesFrom n) hal h1
+    refine ⟨h2, h3, ?_⟩
+    have := h2.good
+    rw [h3] at this
+    exact this
+
+/-- … read element by element: a value `w` held for `m` after the recalculating assignment is what the
+LAZY model – the same assignment with the option off – returns when `m` is asked for afterwards: any
+value it returns is `w`, and when that evaluation stays within the recursion limit it does return `w`. -/
+theorem recalc_value_equals_lazy_value (ho : StrictOrder lt) (hw : C02.WF env lt) {s : St} (h : CI env lt s)
+    (n : Node) (v : Val) (hc : env.cached n.1 = true) (hn : env.alive n.1 = true) (m : Node) (w : Val)
+    (hl : lookup (s.setValueRecalc env n v).1.data m = some w) :
+    (∀ w', (evalTop env m (s.setValue env n v).1).1 = .ok w' → w' = w) ∧
+    (LimitNotCaughtInThisCall env m (s.setValue env n v).1 → (evalTop env m (s.setValue env n v).1).1 = .ok w) := by
+  obtain ⟨h2, _, hg⟩ := recalc_values_are_lazy_values ho hw h n v hc hn
+  have hcm : env.cached m.1 = true := (h2.gi.heldNodes m (by rw [hl]; rfl)).2
+  have hden := hg.sound m w hcm hl
+  have hg1 := (setValue_ci h n v hc hn).good
+  constructor
+  · intro w' hw'
+    have := (C01.eval_value_is_denotation_nocatch_partial env _ hw.noCatch m _ hg1).1 w' hw'
+    have := Den_det env _ m _ _ this hden
+    cases this; rfl
+  · intro hlim
+    obtain ⟨a, b, _⟩ := C01.eval_value_is_denotation_partial env _ m _ hg1 hlim
+    cases hr : (evalTop env m (s.setValue env n v).1).1 with
+    | ok w' =>
+      have := Den_det env _ m _ _ (a w' hr) hden
+      cases this; rfl
+    | formulaError e tb =>
+      have := Den_det env _ m _ _ (b e tb hr) hden
+      cases this
+
+/-- **When no recomputation fails, every former leaf dependent holds a value again** (and with it, by the
+certificates of the resulting state – `calls_have_edges` –, every element its recomputation called; a
+former dependent that is NOT a leaf is recomputed exactly when some leaf's new computation calls it: see the
+example `kEnv` below, where `c1()` stays empty).  No hypothesis on the formulas is needed for this half. -/
+theorem recalc_recomputes_former_leaves {s : St} (h : CI env lt s) (n : Node) (v : Val)
+    (hok : (s.setValueRecalc env n v).2 = .ok) (t : Node) (ht : t ∈ s.startNodesFrom n) :
+    (lookup (s.setValueRecalc env n v).1.data t).isSome = true := by
+  by_cases hv : v = .none ∧ env.allowNone n.1 = false
+  · rw [setValueRecalc_refused s n v hv] at hok; cases hok
+  · rw [setValueRecalc_eq s n v hv] at hok ⊢
+    exact recalcTargets_held env _ _ hok t ht (startNodes_alive h n t ht).2.1
+
+/-- **A failing recomputation raises out of the assignment, which is made all the same**: the element
+holds the assigned value and is an input; the failure is the `FormulaError` of the top-level evaluation
+of one former leaf dependent `t`, the targets before it (in the model's order) were recomputed, those
+after it were not evaluated. -/
+theorem recalc_failure_leaves_assignment_made (ho : StrictOrder lt) (hw : C02.WF env lt) {s : St} (h : CI env lt s)
+    (n : Node) (v : Val) (hc : env.cached n.1 = true) (hn : env.alive n.1 = true)
+    (hv : ¬ (v = .none ∧ env.allowNone n.1 = false)) :
+    lookup (s.setValueRecalc env n v).1.data n = some v ∧ n ∈ (s.setValueRecalc env n v).1.inputs ∧
+    ∀ t e tb, (s.setValueRecalc env n v).2 = .failed t e tb →
+      ∃ pre post, s.startNodesFrom n = pre ++ t :: post ∧
+        (St.recalcTargets env pre (s.setValue env n v).1).1 = .ok ∧
+        (evalTop env t (St.recalcTargets env pre (s.setValue env n v).1).2).1 = .formulaError e tb ∧
+        (s.setValueRecalc env n v).1 = (evalTop env t (St.recalcTargets env pre (s.setValue env n v).1).2).2 := by
+  have h1 := setValue_ci h n v hc hn
+  have hal : ∀ t ∈ s.startNodesFrom n, env.alive t.1 = true := fun t ht => (startNodes_alive h n t ht).1
+  rw [setValueRecalc_eq s n v hv]
+  have hx := (recalcTargets_ci ho hw.ranked hw.noCatch (s.startNodesFrom n) _ hal h1).2.1
+  have hset : lookup (s.setValue env n v).1.data n = some v := by
+    rw [set_value_exact h.gi ⟨h.quiet.stack, h.quiet.idx⟩ n n v hv]; simp
+  have hin : n ∈ (s.setValue env n v).1.inputs := setValue_mem_inputs s n v hv
+  refine ⟨hx n v hset, ?_, ?_⟩
+  · rw [(recalcTargets_keeps env _ _).2]; exact hin
+  · intro t e tb hf
+    obtain ⟨pre, post, s0, e1, e2, e3, e4, e5⟩ := recalcTargets_failed env _ _ t e tb hf
+    subst e3
+    exact ⟨pre, post, e1, e2, e4, e5⟩
+
+/-- **Nothing else is touched**: an element that was held and is not a dependent of `n` keeps its value
+and is not executed – neither by the clearing nor by any recomputation (`new`: the formula executions the
+whole assignment adds to the log); `n` itself holds the assigned value and is not executed either. -/
+theorem recalc_touches_nothing_else (ho : StrictOrder lt) (hw : C02.WF env lt) {s : St} (h : CI env lt s)
+    (n : Node) (v : Val) (hc : env.cached n.1 = true) (hn : env.alive n.1 = true)
+    (hv : ¬ (v = .none ∧ env.allowNone n.1 = false)) :
+    ∃ new, (s.setValueRecalc env n v).1.log = new ++ s.log ∧ n ∉ new ∧
+      ∀ m w, m ≠ n → ¬ Reach s.ge (.elem n) (.elem m) → lookup s.data m = some w →
+        lookup (s.setValueRecalc env n v).1.data m = some w ∧ m ∉ new := by
+  have h1 := setValue_ci h n v hc hn
+  have hal : ∀ t ∈ s.startNodesFrom n, env.alive t.1 = true := fun t ht => (startNodes_alive h n t ht).1
+  rw [setValueRecalc_eq s n v hv]
+  obtain ⟨_, hx, new, hlog, hnew⟩ := recalcTargets_ci ho hw.ranked hw.noCatch (s.startNodesFrom n) _ hal h1
+  refine ⟨new, by rw [hlog, setValue_log], ?_, ?_⟩
+  · intro hmem
+    have := hnew n hmem hc
+    rw [set_value_exact h.gi ⟨h.quiet.stack, h.quiet.idx⟩ n n v hv] at this
+    simp at this
+  · intro m w hmn hnr hl
+    have hl1 : lookup (s.setValue env n v).1.data m = some w := by
+      rw [set_value_exact h.gi ⟨h.quiet.stack, h.quiet.idx⟩ n m v hv]; simp [hmn, hnr, hl]
+    refine ⟨hx m w hl1, fun hmem => ?_⟩
+    have := hnew m hmem (h.gi.heldNodes m (by rw [hl]; rfl)).2
+    rw [hl1] at this; cases this
+
+/-! Non-vacuity, with numbers.  `c0 = 1`, `c1 = c0() * 10`, `c2 = c1() + 1 if c0() < 5 else 0`,
+`c3 = c1() + 100`, `c4 = 7`, `c5 = 1 if c0() < 5 else raise ValueError`, `c6 = c0() + 100`.
+
+* `kS`: `c2()`, `c3()`, `c4()` evaluated (11, 110, 7).  The former leaf dependents of `c0()` are `c2()`,
+  `c3()` (`c1()` is a dependent with dependents).  `c0 = 2` with the option on: `c1()`, `c2()`, `c3()`
+  hold 20, 21, 120 at once; the executions are those three; `c4()` keeps 7 and is not executed.
+* `kT`: only `c2()` evaluated.  `c0 = 9` with the option on: `c2()` is recomputed to 0 WITHOUT calling
+  `c1()`: the former dependent `c1()`, which is not a leaf, holds nothing – as after lazy recomputation
+  of `c2()`.
+* `kU`: `c5()`, then `c3()` evaluated; targets in the model's order `c5()`, `c3()`.  `c0 = 9`: the
+  recomputation of `c5()` fails; the error comes out of the assignment (`.failed`), `c0()` holds 9 as an
+  input, the remaining target `c3()` was not evaluated (it holds nothing, as after the lazy assignment).
+  `kV`: `c6()`, then `c5()` evaluated; targets `c6()`, `c5()`: `c6()` is recomputed (109) before `c5()` fails. -/
+def kCells : CellId → Option Expr
+  | 0 => some (.lit 1)
+  | 1 => some (.mul (.call 0 []) (.lit 10))
+  | 2 => some (.ite (.lt (.call 0 []) (.lit 5)) (.add (.call 1 []) (.lit 1)) (.lit 0))
+  | 3 => some (.add (.call 1 []) (.lit 100))
+  | 4 => some (.lit 7)
+  | 5 => some (.ite (.lt (.call 0 []) (.lit 5)) (.lit 1) (.raise kValue))
+  | 6 => some (.add (.call 0 []) (.lit 100))
+  | _ => none
+
+def kAr : CellId → Option Nat := fun c => (kCells c).map (fun _ => 0)
+
+def kEnv : Env :=
+  C02.tableEnv kCells kAr [0, 1, 2, 3, 4, 5, 6] (fun _ => true) (fun _ => false) (fun _ => 0) (fun _ => 0)
+    (fun _ => none) 50
+
+theorem kEnv_wf : C02.WF kEnv idLt :=
+  C02.tableEnv_wf_aux _ _ _ _ _ _ _ _ _ _ _
+    (by intro i e h
+        match i, h with
+        | 0, _ => simp
+        | 1, _ => simp
+        | 2, _ => simp
+        | 3, _ => simp
+        | 4, _ => simp
+        | 5, _ => simp
+        | 6, _ => simp)
+    (by intro i e h
+        match i, h with
+        | 0, h => cases h; exact ⟨rfl, rfl⟩
+        | 1, h => cases h; exact ⟨rfl, rfl⟩
+        | 2, h => cases h; exact ⟨rfl, rfl⟩
+        | 3, h => cases h; exact ⟨rfl, rfl⟩
+        | 4, h => cases h; exact ⟨rfl, rfl⟩
+        | 5, h => cases h; exact ⟨rfl, rfl⟩
+        | 6, h => cases h; exact ⟨rfl, rfl⟩)
+
+def kS : St := (evalTop kEnv (4, []) (evalTop kEnv (3, []) (evalTop kEnv (2, []) {}).2).2).2
+def kT : St := (evalTop kEnv (2, []) {}).2
+def kU : St := (evalTop kEnv (3, []) (evalTop kEnv (5, []) {}).2).2
+def kV : St := (evalTop kEnv (5, []) (evalTop kEnv (6, []) {}).2).2
+
+theorem kS_ci : CI kEnv idLt kS :=
+  evalTop_ci idLt_strict kEnv_wf.ranked kEnv_wf.noCatch _ rfl
+    (evalTop_ci idLt_strict kEnv_wf.ranked kEnv_wf.noCatch _ rfl
+      (evalTop_ci idLt_strict kEnv_wf.ranked kEnv_wf.noCatch _ rfl (CI.empty kEnv idLt)))
+
+example : kS.startNodesFrom (0, []) = [(2, []), (3, [])] ∧
+    (kS.setValueRecalc kEnv (0, []) (.int 2)).2 = .ok ∧
+    lookup (kS.setValueRecalc kEnv (0, []) (.int 2)).1.data (1, []) = some (.int 20) ∧
+    lookup (kS.setValueRecalc kEnv (0, []) (.int 2)).1.data (2, []) = some (.int 21) ∧
+    lookup (kS.setValueRecalc kEnv (0, []) (.int 2)).1.data (3, []) = some (.int 120) ∧
+    lookup (kS.setValueRecalc kEnv (0, []) (.int 2)).1.data (4, []) = some (.int 7) ∧
+    (kS.setValueRecalc kEnv (0, []) (.int 2)).1.inputs = [(0, [])] ∧
+    (kS.setValueRecalc kEnv (0, []) (.int 2)).1.log = [(3, []), (1, []), (2, [])] ++ kS.log ∧
+    -- the lazy assignment holds none of the three; asked for afterwards it gives the same values
+    lookup (kS.setValue kEnv (0, []) (.int 2)).1.data (2, []) = none ∧
+    (evalTop kEnv (2, []) (kS.setValue kEnv (0, []) (.int 2)).1).1 = .ok (.int 21) ∧
+    (evalTop kEnv (3, []) (kS.setValue kEnv (0, []) (.int 2)).1).1 = .ok (.int 120) := by decide
+
+-- the theorems apply to `kS` (hypotheses met), e.g.:
+example : Good kEnv (inpOf (kS.setValue kEnv (0, []) (.int 2)).1) (kS.setValueRecalc kEnv (0, []) (.int 2)).1 :=
+  (recalc_values_are_lazy_values idLt_strict kEnv_wf kS_ci (0, []) (.int 2) rfl rfl).2.2
+
+example : (lookup (kS.setValueRecalc kEnv (0, []) (.int 2)).1.data (3, [])).isSome = true :=
+  recalc_recomputes_former_leaves kS_ci (0, []) (.int 2) (by decide) (3, []) (by decide)
+
+example : ∃ new, (kS.setValueRecalc kEnv (0, []) (.int 2)).1.log = new ++ kS.log ∧ (0, []) ∉ new ∧
+    ∀ m w, m ≠ (0, []) → ¬ Reach kS.ge (.elem (0, [])) (.elem m) → lookup kS.data m = some w →
+      lookup (kS.setValueRecalc kEnv (0, []) (.int 2)).1.data m = some w ∧ m ∉ new :=
+  recalc_touches_nothing_else idLt_strict kEnv_wf kS_ci (0, []) (.int 2) rfl rfl (fun h => by cases h.1)
+
+example : (evalTop kEnv (3, []) (kS.setValue kEnv (0, []) (.int 2)).1).1 = .ok (.int 120) :=
+  (recalc_value_equals_lazy_value idLt_strict kEnv_wf kS_ci (0, []) (.int 2) rfl rfl (3, []) (.int 120) (by decide)).2
+    (by unfold LimitNotCaughtInThisCall; decide)
+
+example : kT.startNodesFrom (0, []) = [(2, [])] ∧
+    (kT.setValueRecalc kEnv (0, []) (.int 9)).2 = .ok ∧
+    lookup (kT.setValueRecalc kEnv (0, []) (.int 9)).1.data (2, []) = some (.int 0) ∧
+    lookup kT.data (1, []) = some (.int 10) ∧
+    lookup (kT.setValueRecalc kEnv (0, []) (.int 9)).1.data (1, []) = none ∧
+    lookup (evalTop kEnv (2, []) (kT.setValue kEnv (0, []) (.int 9)).1).2.data (1, []) = none := by decide
+
+example : kU.startNodesFrom (0, []) = [(5, []), (3, [])] ∧
+    (kU.setValueRecalc kEnv (0, []) (.int 9)).2 = .failed (5, []) (.user kValue) [(5, [])] ∧
+    lookup (kU.setValueRecalc kEnv (0, []) (.int 9)).1.data (0, []) = some (.int 9) ∧
+    (kU.setValueRecalc kEnv (0, []) (.int 9)).1.inputs = [(0, [])] ∧
+    lookup (kU.setValueRecalc kEnv (0, []) (.int 9)).1.data (3, []) = none ∧
+    lookup (kU.setValueRecalc kEnv (0, []) (.int 9)).1.data (5, []) = none ∧
+    kV.startNodesFrom (0, []) = [(6, []), (5, [])] ∧
+    (kV.setValueRecalc kEnv (0, []) (.int 9)).2 = .failed (5, []) (.user kValue) [(5, [])] ∧
+    lookup (kV.setValueRecalc kEnv (0, []) (.int 9)).1.data (6, []) = some (.int 109) ∧
+    lookup (kV.setValueRecalc kEnv (0, []) (.int 9)).1.data (5, []) = none := by decide
 
 end MxModel.C06
